@@ -78,8 +78,10 @@ struct TResult
 {
   std::vector<std::pair<std::string, std::string>> viol;
   uint64_t ops = 0, creates = 0, destroys = 0, xlate = 0, invokes = 0, callbacks = 0, regs = 0;
+  bool aborted = false;
 };
 
+static void worker_unblock_preemption();
 template<typename B>
 static void worker(int tid, uint64_t seed, int steps, TResult* out, std::atomic<int>* start_gate)
 {
@@ -89,8 +91,9 @@ static void worker(int tid, uint64_t seed, int steps, TResult* out, std::atomic<
   mon::Rng rng(seed);
   const auto& fns = cbpool::pool<B, 24>();
   auto bad = [&](const char* cls, const std::string& d) { if (out->viol.size() < 5) out->viol.push_back({ mon::fmt("C18/%s/logic/%s", be::BT<B>::name(), cls), mon::fmt("thread %d: %s", tid, d.c_str()) }); };
+  worker_unblock_preemption();
   start_gate->fetch_sub(1);
-  while (start_gate->load() > 0) {}
+  while (start_gate->load() > 0) std::this_thread::yield(); // (a bare spin starves the other threads under valgrind's serialising scheduler)
   constexpr int NI = 2;
   std::unique_ptr<sbx> box[NI];
   std::unique_ptr<CB> cb[NI];
@@ -107,6 +110,9 @@ static void worker(int tid, uint64_t seed, int steps, TResult* out, std::atomic<
       continue;
     }
     sbx& sb = *box[i];
+    // none of these operations may abort when a thread runs alone; an abort here is interference (or a defect) and is
+    // recorded, after which this thread stops
+    try {
     switch (rng.below(9)) {
       case 0: { // destroy (re-created later)
         cb[i].reset();
@@ -184,7 +190,13 @@ static void worker(int tid, uint64_t seed, int steps, TResult* out, std::atomic<
         break;
       }
     }
+    } catch (const std::exception& ex) {
+      bad("operation-aborted-although-it-succeeds-single-threaded", mon::fmt("step %d: %s", s, ex.what()));
+      out->aborted = true;
+      break;
+    }
   }
+  if (out->aborted) return; // state of this thread's sandboxes is unknown after an abort: leave them
   for (int i = 0; i < NI; i++) {
     cb[i].reset();
     if (box[i]) { box[i]->destroy_sandbox(); out->destroys++; }
@@ -216,9 +228,58 @@ static void run(int nthreads, int steps, uint64_t seed)
                        (unsigned long long)tot.creates, (unsigned long long)tot.destroys, (unsigned long long)tot.xlate, (unsigned long long)tot.invokes, (unsigned long long)tot.callbacks));
 }
 
+// Preemption mode (uninstrumented build only): all threads are pinned to one CPU and a profiling timer delivers a signal
+// every ~137 us of CPU time whose handler yields.  Threads are then suspended at arbitrary instructions -- also between two
+// atomic operations that no race detector objects to -- while the others run whole time slices, which turns
+// check-then-use windows of a few instructions into schedules that actually occur.  Oracles: the thread-local ones.
+#include <sched.h>
+#include <csignal>
+#include <ctime>
+#include <sys/time.h>
+static volatile uint64_t g_preemptions = 0;
+static void preempt_handler(int) { g_preemptions = g_preemptions + 1; sched_yield(); }
+static bool g_preempt_mode = false;
+static void enable_preemption(long usec)
+{
+  g_preempt_mode = true;
+  cpu_set_t set;
+  CPU_ZERO(&set);
+  CPU_SET(sched_getcpu(), &set);
+  sched_setaffinity(0, sizeof set, &set); // inherited by the workers created later
+  struct sigaction sa;
+  memset(&sa, 0, sizeof sa);
+  sa.sa_handler = preempt_handler;
+  sa.sa_flags = SA_RESTART;
+  sigaction(SIGPROF, &sa, nullptr);
+  // the main thread only joins: keep the signal away from it (workers unblock it for themselves)
+  sigset_t m;
+  sigemptyset(&m);
+  sigaddset(&m, SIGPROF);
+  pthread_sigmask(SIG_BLOCK, &m, nullptr);
+  // high-resolution interval timer (the profiling itimers only have tick resolution)
+  struct sigevent sev;
+  memset(&sev, 0, sizeof sev);
+  sev.sigev_notify = SIGEV_SIGNAL;
+  sev.sigev_signo = SIGPROF;
+  timer_t tm;
+  if (timer_create(CLOCK_MONOTONIC, &sev, &tm) == 0) {
+    itimerspec its{ { 0, usec * 1000 }, { 0, usec * 1000 } };
+    timer_settime(tm, 0, &its, nullptr);
+  }
+}
+static void worker_unblock_preemption()
+{
+  if (!g_preempt_mode) return;
+  sigset_t m;
+  sigemptyset(&m);
+  sigaddset(&m, SIGPROF);
+  pthread_sigmask(SIG_UNBLOCK, &m, nullptr);
+}
+
 int main(int argc, char** argv)
 {
   mon::init("C18", argc, argv);
+  if (const char* e = getenv("VERIF_C18_PREEMPT")) { enable_preemption(atol(e) > 0 ? atol(e) : 137); mon::hit("preemption-mode-runs"); }
   mon::require("thread-operations");
   mon::require("creates-and-destroys");
   static vsbx_library lib[2];
@@ -235,6 +296,7 @@ int main(int argc, char** argv)
   if (which == 0) run<VS>(nthreads, steps, seed);
   else if (which == 1) run<rlbox_noop_sandbox>(nthreads, steps, seed);
   else run<rlbox_dylib_sandbox>(nthreads, steps / 2, seed);
+  if (g_preemptions) mon::extra_num("forced_preemptions", g_preemptions);
 #ifdef C18_LOCK_WRAPPER
   mon::extra_num("lock_acquisitions", c18::acquisitions.load());
   mon::extra_num("contended_shared_acquisitions", c18::contended_shared.load());
